@@ -42,6 +42,8 @@ type State struct {
 	pc    []*Term
 	ghost map[string]Value
 	gver  map[*Obj]int // ghost-field version per object (bumped when the object is havocked)
+	br    map[*Term]bool   // path-condition entries that are branch decisions (the rest are facts)
+	named map[string]*Term // labelled facts (requires, invariants, proof steps) for `[from ...]` proof steps
 	rw    map[*Term]*Term // established equations used as left-to-right rewrites of values (each is also in pc)
 }
 
@@ -49,6 +51,18 @@ func (s *State) clone() *State {
 	n := &State{vars: make(map[*types.Var]*Obj, len(s.vars)), heap: make(map[*Obj]Value, len(s.heap)), ghost: map[string]Value{}, gver: map[*Obj]int{}}
 	for k, v := range s.gver {
 		n.gver[k] = v
+	}
+	if len(s.br) > 0 {
+		n.br = make(map[*Term]bool, len(s.br))
+		for k := range s.br {
+			n.br[k] = true
+		}
+	}
+	if len(s.named) > 0 {
+		n.named = make(map[string]*Term, len(s.named))
+		for k, v := range s.named {
+			n.named[k] = v
+		}
 	}
 	if len(s.rw) > 0 {
 		n.rw = make(map[*Term]*Term, len(s.rw))
@@ -67,6 +81,30 @@ func (s *State) clone() *State {
 	}
 	n.pc = append([]*Term{}, s.pc...)
 	return n
+}
+
+// assumeBranch records a branch decision (as opposed to a fact learned along the path).
+func (s *State) assumeBranch(t *Term) {
+	if s.br == nil {
+		s.br = map[*Term]bool{}
+	}
+	if t.Op == "and" {
+		for _, a := range t.Args {
+			s.br[a] = true
+		}
+	}
+	s.br[t] = true
+	s.assume(t)
+}
+
+func (s *State) name(label string, t *Term) {
+	if label == "" {
+		return
+	}
+	if s.named == nil {
+		s.named = map[string]*Term{}
+	}
+	s.named[label] = t
 }
 
 func (s *State) assume(t *Term) {
@@ -294,6 +332,9 @@ type Oblig struct {
 	Res     SolveResult
 	Inputs  map[string]*Term
 	presolved bool
+	AltHyps   []*Term // full path condition, tried when the structured (restricted) attempt fails
+	NoAbstract bool
+	Abstract  map[string]bool
 	PreHyps   []*Term
 	Inconclusive bool
 	query     *Query
@@ -329,6 +370,11 @@ type exec struct {
 	mulLog      []mulRec
 	lemmaDepth  int
 	allowed     *Term
+	midBody     bool
+	noSplit     bool
+	inPrune     bool
+	lemmaTimeout int
+	copyN       int
 	usedGlobalFacts map[string]bool
 	trustedClauses  map[string]bool
 }
@@ -372,6 +418,20 @@ func shortPath(f string) string {
 // oblige records a proof obligation: st.pc ==> goal.  The goal is assumed afterwards.
 func (ex *exec) oblige(st *State, kind, label string, goal *Term, pos token.Pos) {
 	if st.infeasible() {
+		return
+	}
+	// a conjunctive goal is proved conjunct by conjunct (smaller queries)
+	if goal.Op == "and" && len(goal.Args) >= 4 && !ex.noSplit {
+		ex.noSplit = true
+		for i, c := range goal.Args {
+			l := label
+			if l == "" {
+				l = "part"
+			}
+			ex.oblige(st.clone(), kind, fmt.Sprintf("%s.%d", l, i+1), c, pos)
+		}
+		ex.noSplit = false
+		st.assume(goal)
 		return
 	}
 	fn := ex.root.Key
@@ -993,7 +1053,7 @@ func (ex *exec) execIf(st *State, s *ast.IfStmt) []*Outcome {
 		ts := st
 		if c != True {
 			ts = st.clone()
-			ts.assume(c)
+			ts.assumeBranch(c)
 		}
 		if !ts.infeasible() {
 			outs = append(outs, ex.execBlock(ts, s.Body.List)...)
@@ -1001,7 +1061,7 @@ func (ex *exec) execIf(st *State, s *ast.IfStmt) []*Outcome {
 	}
 	if c != True {
 		es := st
-		es.assume(Not(c))
+		es.assumeBranch(Not(c))
 		if !es.infeasible() {
 			if s.Else != nil {
 				outs = append(outs, ex.execStmt(es, s.Else)...)
@@ -1036,6 +1096,19 @@ func (ex *exec) simplifyUnderPC(st *State, t *Term) *Term {
 			return True
 		}
 		if p == n {
+			return False
+		}
+	}
+	if ex.ct != nil && ex.ct.Prune && !ex.inPrune {
+		ex.inPrune = true
+		defer func() { ex.inPrune = false }()
+		saved := ex.lemmaTimeout
+		ex.lemmaTimeout = 3
+		defer func() { ex.lemmaTimeout = saved }()
+		if ex.lemma(st, t, "branch-always", token.NoPos) {
+			return True
+		}
+		if ex.lemma(st, n, "branch-never", token.NoPos) {
 			return False
 		}
 	}
@@ -1080,12 +1153,12 @@ func (ex *exec) execSwitch(st *State, s *ast.SwitchStmt) []*Outcome {
 		c := Or(conds...)
 		if c != False {
 			ts := cur.clone()
-			ts.assume(c)
+			ts.assumeBranch(c)
 			if !ts.infeasible() {
 				finish(ex.execBlock(ts, cc.Body))
 			}
 		}
-		cur.assume(Not(c))
+		cur.assumeBranch(Not(c))
 		if cur.infeasible() {
 			return outs
 		}
@@ -1184,6 +1257,8 @@ func (ex *exec) skipNestedLoops(fr *frame, body *ast.BlockStmt) {
 // execLoopCut: invariant-based loop verification.  rangeHook, when non-nil,
 // is called at the start of each abstract iteration to bind range variables.
 func (ex *exec) execLoopCut(st *State, cond ast.Expr, body *ast.BlockStmt, post ast.Stmt, label string, lc *LoopContract, pos token.Pos, bind func(st *State)) []*Outcome {
+	ex.midBody = true
+	defer func() { ex.midBody = false }()
 	fr := ex.fr()
 	saved := fr.loopOrd
 	// establish
@@ -1195,7 +1270,9 @@ func (ex *exec) execLoopCut(st *State, cond ast.Expr, body *ast.BlockStmt, post 
 	hst := st
 	ex.havocLoopTargets(hst, body, post, lc, pos)
 	for _, inv := range lc.Invariants {
-		hst.assume(ex.evalSpecBool(hst, fr, inv.Expr, nil))
+		t := ex.evalSpecBool(hst, fr, inv.Expr, nil)
+		hst.assume(t)
+		hst.name("inv:"+inv.Label, t)
 	}
 	var exits []*Outcome
 	// exit path
@@ -1205,11 +1282,11 @@ func (ex *exec) execLoopCut(st *State, cond ast.Expr, body *ast.BlockStmt, post 
 		c = ex.evalCond(bodySt, cond)
 		est := hst
 		ec := ex.evalCond(est, cond)
-		est.assume(Not(ec))
+		est.assumeBranch(Not(ec))
 		if !est.infeasible() {
 			exits = append(exits, &Outcome{st: est, kind: ONormal})
 		}
-		bodySt.assume(c)
+		bodySt.assumeBranch(c)
 	}
 	if bind != nil {
 		bind(bodySt)
@@ -1360,6 +1437,11 @@ func (ex *exec) havocLoopTargets(st *State, body *ast.BlockStmt, post ast.Stmt, 
 					ct := ex.eng.contracts[key]
 					if ex.mode == ModeInt {
 						if c2 := ex.eng.contracts[key+"#int"]; c2 != nil {
+							ct = c2
+						}
+					}
+					if fnObj.Pkg() != nil && ex.root.Pkg != nil && ex.root.Pkg.Types != fnObj.Pkg() {
+						if c2 := ex.eng.contracts[key+"#ext"]; c2 != nil {
 							ct = c2
 						}
 					}
@@ -1634,6 +1716,8 @@ func (ex *exec) execRange(st *State, s *ast.RangeStmt, label string) []*Outcome 
 }
 
 func (ex *exec) execRangeCut(st *State, s *ast.RangeStmt, label string, lc *LoopContract, idx *Obj, n *Term, bindVars func(*State, *Term)) []*Outcome {
+	ex.midBody = true
+	defer func() { ex.midBody = false }()
 	fr := ex.fr()
 	pos := s.Pos()
 	saved := fr.loopOrd
@@ -1693,6 +1777,9 @@ func (ex *exec) mergeStates(sts []*State) []*State {
 	if len(live) <= 1 {
 		return live
 	}
+	if ex.ct != nil && ex.ct.NoMerge && len(ex.frames) == 1 {
+		return live
+	}
 	// fold from the end: adjacent states share the longest path-condition prefixes
 	out := []*State{live[len(live)-1]}
 	for i := len(live) - 2; i >= 0; i-- {
@@ -1730,10 +1817,59 @@ func (ex *exec) tryMerge(a, b *State) (res *State) {
 	if a.pc[k] != Not(b.pc[k]) {
 		return nil
 	}
-	ca := And(a.pc[k:]...)
-	cb := And(b.pc[k:]...)
+	// the distinguishing condition consists of the branch decisions since the paths diverged;
+	// facts learned on one path only are kept, guarded by that path's condition
+	split := func(s *State) (br, facts []*Term) {
+		for i, p := range s.pc[k:] {
+			if i == 0 || s.br[p] {
+				br = append(br, p)
+			} else {
+				facts = append(facts, p)
+			}
+		}
+		return
+	}
+	bra, fa := split(a)
+	brb, fb := split(b)
+	ca := And(bra...)
+	cb := And(brb...)
 	pc := append(append([]*Term{}, a.pc[:k]...), Or(ca, cb))
-	return ex.mergeWith(a, b, ca, pc)
+	inB := map[*Term]bool{}
+	for _, f := range fb {
+		inB[f] = true
+	}
+	inA := map[*Term]bool{}
+	for _, f := range fa {
+		inA[f] = true
+		if inB[f] {
+			pc = append(pc, f)
+		} else {
+			pc = append(pc, Implies(ca, f))
+		}
+	}
+	for _, f := range fb {
+		if !inA[f] {
+			pc = append(pc, Implies(cb, f))
+		}
+	}
+	var pc2 []*Term
+	for _, p := range pc {
+		if p != True {
+			pc2 = append(pc2, p)
+		}
+	}
+	m := ex.mergeWith(a, b, ca, pc2)
+	if m != nil {
+		m.br = map[*Term]bool{}
+		for t := range a.br {
+			m.br[t] = true
+		}
+		for t := range b.br {
+			m.br[t] = true
+		}
+		m.br[Or(ca, cb)] = true
+	}
+	return m
 }
 
 type mergeFail struct{}
@@ -1746,6 +1882,21 @@ func (ex *exec) mergeWith(a, b *State, ca *Term, pc []*Term) *State {
 	for k, v := range b.gver {
 		if v > n.gver[k] {
 			n.gver[k] = v
+		}
+	}
+	// labelled facts survive a merge guarded by the condition of the path they hold on
+	for k, v := range a.named {
+		if b.named[k] == v {
+			n.name(k, v)
+		} else if bv, ok := b.named[k]; ok {
+			n.name(k, Ite(ca, v, bv))
+		} else {
+			n.name(k, Implies(ca, v))
+		}
+	}
+	for k, v := range b.named {
+		if _, ok := a.named[k]; !ok {
+			n.name(k, Implies(Not(ca), v))
 		}
 	}
 	for k, v := range a.rw {
